@@ -289,6 +289,27 @@ func runC01(c *Ctx) error {
 						break
 					}
 					c.count(tag+" all", true, "apis=all")
+					// (3) every length-encoding / segment boundary once per pair and direction, through rotating APIs
+					if r == 0 && !parallel {
+						var bops []sendOp
+						for bi, ln := range []int{0, 125, 126, 127, 65535, 65536, 65537, 131071, 131072, 131073} {
+							api := allAPIs[(bi+ci)%len(allAPIs)]
+							opc := 2
+							if api == "string" {
+								opc = 1
+							}
+							pl := textPayload(c, ln, pool)
+							op := sendOp{API: api, Opcode: opc, Slices: [][]byte{pl}}
+							if api == "file" {
+								op.Reader, op.Slices = newChunkReader(splitSlices(c, pl, 1+bi%3), "sep"), nil
+							}
+							bops = append(bops, op)
+						}
+						if !e2eDirection(c, p, fromServer, bops, parallel, tag+" boundaries", false, 0, pc.utf8) {
+							break
+						}
+						c.count(tag+" boundaries", true, "apis=boundaries")
+					}
 				}
 				p.close()
 			}
